@@ -9,7 +9,55 @@ package csv
 // The callback of CSVDatabase honours the parser's callback protocol: on an error the record is nil and must
 // not be touched; the error stops the export and is handed back.
 func CSVDatabase$1
-  props C08 C09 C10
+  props C08 C09 C10 C17
   refines parser.StopOnErr
   modifies *
+  captured r.output != nil
+
+// ---------------------------------------------------------------------------------------------
+// The CSV reporters write through one csv.Writer; its error is sticky and is returned by Write and by Error()
+// after the final Flush (C17).
+// ---------------------------------------------------------------------------------------------
+func NewCSVReporter returns (r)
+  props C17 C08
+  modifies ghost(bufSink, bufSticky)
+  ensures @fresh r.output != nil && fresh(r.output) && r.outputTimeFormat == config.OutputTimeFormat
+  ensures @sink [C17] bufSink == store(old(bufSink), r.output, payload(config.Output)) && bufSticky == store(old(bufSticky), r.output, false)
+
+// one row per (day, distinct food), in the day's order (C13: rows; the field encoding is the library's)
+func (CSVReporter).Process returns (err)
+  props C17 C08 C13
+  requires @args ln != nil && r.output != nil
+  modifies ghost(bufSticky, sinkFailed, sinkPend)
+  ensures @sink [C17] BufStep(r.output)
+  ensures @reports-loss [C17] err == nil ==> bufSticky[r.output] == old(bufSticky[r.output])
+  loop 1 { invariant @sink r == old(r) && ln == old(ln) && BufStep(r.output) && bufSticky[r.output] == old(bufSticky[r.output]) }
+
+func (CSVReporter).Flush returns (err)
+  props C17 C08
+  requires @args r.output != nil
+  modifies ghost(bufSticky, sinkFailed, sinkPend)
+  ensures @sink [C17] BufStep(r.output)
+  ensures @reports-loss [C17] (err != nil) == bufSticky[r.output] && (err == nil ==> sinkPend[bufSink[r.output]] == 0)
+
+func NewCSVDatabaseReporter returns (r)
+  props C17 C08
+  modifies ghost(bufSink, bufSticky)
+  ensures @fresh r.output != nil && fresh(r.output)
+  ensures @sink [C17] bufSink == store(old(bufSink), r.output, payload(config.Output)) && bufSticky == store(old(bufSticky), r.output, false)
+
+func (CSVDatabaseReporter).Process returns (err)
+  props C17 C08 C13
+  requires @args n != nil && r.output != nil
+  modifies ghost(bufSticky, sinkFailed, sinkPend)
+  ensures @sink [C17] BufStep(r.output)
+  ensures @reports-loss [C17] err == nil ==> bufSticky[r.output] == old(bufSticky[r.output])
+  loop 1 { invariant @sink r == old(r) && n == old(n) && BufStep(r.output) && bufSticky[r.output] == old(bufSticky[r.output]) }
+
+func (CSVDatabaseReporter).Flush returns (err)
+  props C17 C08
+  requires @args r.output != nil
+  modifies ghost(bufSticky, sinkFailed, sinkPend)
+  ensures @sink [C17] BufStep(r.output)
+  ensures @reports-loss [C17] (err != nil) == bufSticky[r.output] && (err == nil ==> sinkPend[bufSink[r.output]] == 0)
 @*/
